@@ -440,12 +440,34 @@ def run_writekinds(chk, F, G_, parts=("collect", "lvalue")):
     return akinds | incdec
 
 
+def is_worklist_form(fn):
+    """the function walks the tree iteratively: a local vector of expressions that a loop takes nodes from and pushes their
+    operands onto.  The per-node rules of this module read a function that is applied to `this` and recurses."""
+    vecs = set()
+    for d in walk(fn["body"]):
+        if d.get("k") == "decl":
+            for v in d.get("vars", []):
+                t = (v.get("ct") or v.get("t") or "")
+                if "vector" in t and "expression_t" in t:
+                    vecs.add(v.get("id"))
+    if not vecs:
+        return False
+    for lp in walk(fn["body"]):
+        if lp.get("k") in ("while", "for", "do"):
+            if any(c.get("name") in ("push_back", "emplace_back", "insert") and
+                   any(x.get("k") == "ref" and x.get("id") in vecs for x in walk(c.get("recv") or {})) for c in calls(lp)):
+                return True
+    return False
+
+
 def run_reads(chk, F):
     rid = "R-READS"
     chk.rule(rid, "collect_possible_reads recurses into all children, records every IDENTIFIER symbol and adds the "
                   "callee's depends set for FUN_CALL (so a function that writes a non-local is never compile-time "
                   "computable, which lets the computability gate stand in for a side-effect gate)")
     rfn = F.fn("UTAP::expression_t::collect_possible_reads")
+    if is_worklist_form(rfn):
+        raise AnalysisBroken("collect_possible_reads walks the tree with a work list: this reader follows the recursive form only")
     rec = any(n.get("k") == "for" and any(c.get("name") == "collect_possible_reads" for c in calls(n["body"]))
               for n in walk(rfn["body"]))
     chk.ob(rid, "children", rec, "collect_possible_reads does not recurse into all children",
@@ -1606,6 +1628,8 @@ def run_callee(chk, F, collectors, rid="R-CALLEE"):
         raise AnalysisBroken("expr_dot: member shapes not found (%s)" % sorted(shapes))
     for name in collectors:
         fn = F.fn("UTAP::expression_t::" + name)
+        if is_worklist_form(fn):
+            raise AnalysisBroken("%s walks the tree with a work list: R-CALLEE reads the recursive form only" % name)
         sl = KindSlicer(F, fn, subject="this")
         body = sl.slice("FUN_CALL")
         uses_summary = any(n.get("k") == "member" and n.get("name") in ("changes", "depends") for n in walk(body))
@@ -2057,7 +2081,26 @@ def run_earlydepends(chk, F, rid="R-EARLYDEPENDS"):
     erases = [c for c in calls(de["body"]) if c.get("name") == "erase" and "depends" in short(c.get("recv"))]
     own = all(("uid" in short(c["args"][0]) or "frame" in short(c["args"][0]) or "get_frame" in short(c["args"][0]))
               for c in erases if c.get("args"))
-    chk.ob(rid, "decl_func_end|depends", bool(ctor) and accepted and len(erases) >= 2 and own,
+    # second form: the visitor fills a local set, and depends receives that set minus what the function declares itself
+    # (std::set_difference into an inserter on depends, the subtrahend built from fun.variables and the body's frame)
+    alt = False
+    visitor_any = [x for x in walk(de["body"]) if x.get("k") in ("construct", "decl") and "CollectDependenciesVisitor" in short(x)]
+    for c in calls(de["body"]):
+        if c.get("name") == "set_difference" and len(c.get("args", [])) >= 5 and "depends" in short(c["args"][4]):
+            sub = short(c["args"][2])
+            src_ok = False
+            for d_ in walk(de["body"]):
+                if d_.get("k") == "decl":
+                    for v_ in d_.get("vars", []):
+                        if v_.get("name") and v_["name"] in sub and v_.get("init") is not None:
+                            for c2 in calls(v_["init"]):
+                                for t_ in F.fns(c2.get("fn") or ""):
+                                    if t_.get("body") is not None and "variables" in short(t_["body"]) or \
+                                            any(x_.get("k") == "member" and x_.get("name") == "variables" for x_ in walk(t_.get("body"))):
+                                        if any(y_.get("name") == "get_frame" for y_ in calls(t_["body"])):
+                                            src_ok = True
+            alt = bool(visitor_any) and accepted and src_ok
+    chk.ob(rid, "decl_func_end|depends", (bool(ctor) and accepted and len(erases) >= 2 and own) or alt,
            "StatementBuilder::decl_func_end does not compute function_t::depends: the builders' collectDependencies (%s) adds the "
            "depends of a called function while the model is parsed, when it is still empty - a free process parameter reaches an "
            "array size through a function unnoticed" % ", ".join(sorted({f["q"].replace("UTAP::", "") for f in consumers})),
